@@ -144,6 +144,11 @@ pub enum Mut {
   /// splice with a second authentic token under the same key
   Splice(u8, Box<TokSpec>),
   Multi(Vec<Mut>),
+  /// character j of the token text written another way that some transport or other would map back to it:
+  /// style 0 `%41`, 1 `%2e` lower-case hex, 2 `&#65;`, 3 `\\u0041`, 4 the full-width / look-alike code point
+  Respell(u32, u8),
+  /// the footer segment replaced by the encoding of ANOTHER SPELLING of the same JSON object (applies to JSON-object footers)
+  FooterJsonRespell(u8),
 }
 
 impl Mut {
@@ -162,6 +167,8 @@ impl Mut {
       Mut::SwapPayloadAndFooter => "swap-segments",
       Mut::B64Variant(..) => "noncanonical-base64",
       Mut::Prepend(_) => "prepend",
+      Mut::Respell(..) => "respell-char",
+      Mut::FooterJsonRespell(_) => "footer-json-respelt",
       Mut::InsertText(..) => "insert-text",
       Mut::DupRange(..) => "duplicate-range",
       Mut::Splice(..) => "splice",
@@ -317,6 +324,34 @@ pub fn apply(m: &Mut, spec: &TokSpec, t: &str) -> Option<String> {
         return None;
       }
       Some(format!("{pre}{t}"))
+    }
+    Mut::FooterJsonRespell(how) => {
+      let f = fseg?;
+      let text = String::from_utf8(unb64(&f)?).ok()?;
+      let other = crate::c05::json_respell(&text, *how)?;
+      Some(rejoin(&header, &pseg, Some(&b64(other.as_bytes()))))
+    }
+    Mut::Respell(j, style) => {
+      let chars: Vec<char> = t.chars().collect();
+      let j = *j as usize;
+      let c = *chars.get(j)?;
+      let new = match style % 5 {
+        0 => format!("%{:02X}", c as u32),
+        1 => format!("%{:02x}", c as u32),
+        2 => format!("&#{};", c as u32),
+        3 => format!("\\u{:04x}", c as u32),
+        _ => match c {
+          '.' => "\u{ff0e}".to_string(),
+          '-' => "\u{2010}".to_string(),
+          '_' => "\u{ff3f}".to_string(),
+          c if c.is_ascii_alphanumeric() => char::from_u32(0xff00 + (c as u32 - 0x20))?.to_string(),
+          _ => return None,
+        },
+      };
+      let mut out: String = chars[..j].iter().collect();
+      out.push_str(&new);
+      out.extend(chars[j + 1..].iter());
+      Some(out)
     }
     Mut::InsertText(at, ins) => {
       let chars: Vec<char> = t.chars().collect();
@@ -559,6 +594,18 @@ pub fn exhaustive_mutations(spec: &TokSpec, stride: usize) -> Vec<Mut> {
   for pre in [hdr.to_string(), hdr.repeat(2), hdr.repeat(3), hdr[..3].to_string(), ".".to_string(), "v4.local.".to_string(), "v2.public.".to_string(), " ".to_string(), "\u{feff}".to_string()] {
     v.push(Mut::Prepend(pre));
   }
+  for how in 0..5u8 {
+    v.push(Mut::FooterJsonRespell(how));
+  }
+  // every character written as its percent-escape; every 7th in the other styles
+  for j in 0..l {
+    v.push(Mut::Respell(j, 0));
+    if j % 7 == 0 {
+      for style in 1..5u8 {
+        v.push(Mut::Respell(j, style));
+      }
+    }
+  }
   let hl = hdr.len() as u32;
   v.push(Mut::InsertText(hl, hdr.to_string()));
   v.push(Mut::InsertText(3, hdr[..3].to_string()));
@@ -600,6 +647,8 @@ fn simple_mut() -> BoxedStrategy<Mut> {
     1 => (0u32..30, prop_oneof![Just("v4.local.".to_string()), Just(".".to_string()), gen::special(), gen::jsonish(4)]).prop_map(|(a, t)| Mut::InsertText(a, t)),
     2 => (0u32..700, 1u32..300, 0u32..700).prop_map(|(a, b, c)| Mut::DupRange(a, b, c)),
     2 => (0u8..2, 0u8..19).prop_map(|(s, k)| Mut::B64Variant(s, k)),
+    2 => (0u32..700, 0u8..5).prop_map(|(j, s)| Mut::Respell(j, s)),
+    1 => (0u8..5).prop_map(Mut::FooterJsonRespell),
   ]
   .boxed()
 }
